@@ -46,6 +46,38 @@ def possible_cpus():
     return n
 
 
+def parse_cpulist(text):
+    """a kernel cpulist ("0-3,8-11", "0,2-3", "5") as [[lo, hi], ...] - the form handed to the specification,
+    which counts the CPUs itself"""
+    out = []
+    for part in text.strip().split(","):
+        lo, _, hi = part.partition("-")
+        out.append([int(lo), int(hi or lo)])
+    return out
+
+
+def host_possible_ranges():
+    with open("/sys/devices/system/cpu/possible") as f:
+        return parse_cpulist(f.read())
+
+
+def cpu_ids(ranges):
+    return [c for lo, hi in ranges for c in range(lo, hi + 1)]
+
+
+def cpulist(ids):
+    """CPU numbers as the kernel prints them: maximal ranges separated by commas"""
+    ids = sorted(ids)
+    parts, i = [], 0
+    while i < len(ids):
+        j = i
+        while j + 1 < len(ids) and ids[j + 1] == ids[j] + 1:
+            j += 1
+        parts.append(str(ids[i]) if i == j else f"{ids[i]}-{ids[j]}")
+        i = j + 1
+    return ",".join(parts)
+
+
 def roundup8(n):
     return (n + 7) // 8 * 8
 
@@ -87,7 +119,16 @@ class FakeMap:
 
 class FakeKernel:
     def __init__(self, possible=None, online=None, first_fd=1000, affinity=None, pin=None):
-        self.possible = possible if possible is not None else possible_cpus()
+        # possible: a number (CPUs 0..n-1) or the cpulist of the host's possible mask, which need not be one
+        # contiguous range ("0-3,8-11", "0,2-3": sparse masks of LPARs, VMs, possible_cpus= setups)
+        if isinstance(possible, str):
+            self.possible_ranges = parse_cpulist(possible)
+        elif possible is None:
+            self.possible_ranges = host_possible_ranges()
+        else:
+            self.possible_ranges = [[0, possible - 1]]
+        self.possible_ids = cpu_ids(self.possible_ranges)
+        self.possible = len(self.possible_ids)
         self.online = online                    # simulated host: its online CPUs (None: the real host)
         self.affinity = affinity                # simulated host: CPUs this process may run on (None: all online)
         self.pin = pin                          # real host: really confine the process to that many CPUs
@@ -136,11 +177,12 @@ class FakeKernel:
         P, O = self.possible, self.online
         A = self.affinity if self.affinity is not None else O
 
-        def rng(n):
-            return f"0-{n - 1}\n" if n > 1 else "0\n"
-        files = {"/sys/devices/system/cpu/possible": rng(P), "/sys/devices/system/cpu/online": rng(O),
-                 "/sys/devices/system/cpu/present": rng(O),
-                 "/proc/cpuinfo": "".join(f"processor\t: {i}\n\n" for i in range(O))}
+        online_ids = self.possible_ids[:O]          # the online CPUs are some of the possible ones
+        affinity_ids = online_ids[:A]
+        files = {"/sys/devices/system/cpu/possible": cpulist(self.possible_ids) + "\n",
+                 "/sys/devices/system/cpu/online": cpulist(online_ids) + "\n",
+                 "/sys/devices/system/cpu/present": cpulist(online_ids) + "\n",
+                 "/proc/cpuinfo": "".join(f"processor\t: {i}\n\n" for i in online_ids)}
         real_open, real_sysconf = builtins.open, os.sysconf
 
         def fake_open(path, *a, **kw):
@@ -156,7 +198,7 @@ class FakeKernel:
                 return O
             return real_sysconf(name)
         fakes = {"cpu_count": lambda: O, "process_cpu_count": lambda: A,
-                 "sched_getaffinity": lambda pid=0: set(range(A)), "sysconf": fake_sysconf,
+                 "sched_getaffinity": lambda pid=0: set(affinity_ids), "sysconf": fake_sysconf,
                  "get_nprocs": lambda: O, "get_nprocs_conf": lambda: O}
         # wherever the name is bound: the os / multiprocessing modules and every module of the library that
         # imported one of these functions by name (also from a scratch copy of the package)
